@@ -45,7 +45,7 @@ CLAIMS = {
              'documented rule',
         note='Trusted: Lean kernel; interpreter model validated (not verified) against the real classes by correspondence. '
              'Statements carry explicit fuel offsets (the model is fuel-indexed)',
-        technique='Lean 4 proof (step rule + induction over the condition chain, reuse of the C08 invariant) + '
+        technique='Lean 4 proof over a model partly regenerated from the source on every run (statement-by-statement translator, equality with the hand-written model proved); Lean 4 proof (step rule + induction over the condition chain, reuse of the C08 invariant) + '
                   'model/implementation correspondence + call-log oracle',
         ref='DESIGN.md §5 C09'),
     'C14': dict(
@@ -62,7 +62,7 @@ CLAIMS = {
              'oracle: a reference evaluator written with plain Python try statements',
         note='Trusted: Lean kernel; interpreter model validated (not verified) against the real classes; match_base modelled with '
              'depth 16; messages of CPython-internal exceptions not compared',
-        technique='Lean 4 proof (case analysis of the interpreter on each outcome, list characterisation of find_handler) + '
+        technique='Lean 4 proof over a model partly regenerated from the source on every run (statement-by-statement translator, equality with the hand-written model proved); Lean 4 proof (case analysis of the interpreter on each outcome, list characterisation of find_handler) + '
                   'model/implementation correspondence + Python-semantics reference evaluator',
         ref='DESIGN.md §5 C14'),
     'C02': dict(
@@ -85,7 +85,7 @@ CLAIMS = {
         note='Trusted: Lean kernel; interpreter model validated (not verified) against the real classes. Lookups are characterised '
              'without a security guard (with a guard installed, C05 covers them); sequence-variable frames of dtml-in are '
              'characterised in C10, not here',
-        technique='Lean 4 proof (induction over the frame list, reuse of the C08 invariant) + model/implementation '
+        technique='Lean 4 proof over a model partly regenerated from the source on every run (statement-by-statement translator, equality with the hand-written model proved); Lean 4 proof (induction over the frame list, reuse of the C08 invariant) + model/implementation '
                   'correspondence + precedence/scope oracle',
         ref='DESIGN.md §5 C02'),
     'C19': dict(
@@ -144,7 +144,7 @@ CLAIMS = {
         note='Trusted: Lean kernel; hand-compiled scanners validated against CPython re by token correspondence; the compiled '
              'tree (Parse.Node) and the interpreter\'s blocks (Render.Blk) are two models tied to the code separately. Partial: '
              'the composition statement render(a+b) is decided by the oracle, not yet by a theorem over both models',
-        technique='Lean 4 proof (induction over the text for the scanner, stack-machine invariant for the builder) + '
+        technique='Lean 4 proof over a model partly regenerated from the source on every run (statement-by-statement translator, equality with the hand-written model proved); Lean 4 proof (induction over the text for the scanner, stack-machine invariant for the builder) + '
                   'model/implementation correspondence + independent-printer oracle',
         ref='DESIGN.md §5 C01'),
     'C07': dict(
@@ -240,7 +240,7 @@ CLAIMS = {
         note='Trusted: Lean kernel; hand-written interpreter model validated (not verified) against the real classes by '
              'correspondence incl. in-flight namespace snapshots. dtml-tree push/pop sites are outside the model: covered '
              'by the fault-injection oracle only (partial)',
-        technique='Lean 4 proof (mutual induction over the fuel-indexed interpreter) + model/implementation correspondence '
+        technique='Lean 4 proof over a model partly regenerated from the source on every run (statement-by-statement translator, equality with the hand-written model proved); Lean 4 proof (mutual induction over the fuel-indexed interpreter) + model/implementation correspondence '
                   'under fault injection',
         ref='DESIGN.md §5 C08'),
     'C03': dict(
@@ -251,7 +251,7 @@ CLAIMS = {
              'insertion forms; oracle = html.escape/html.unescape',
         note='Trusted: Lean kernel; html.escape/unescape as reference; model of the simple-form/full-path split '
              'validated by correspondence. Bytes through the full path: known finding C03-bytes-fullpath',
-        technique='Lean 4 proof (induction on the string, table obligation regenerated from source) + correspondence',
+        technique='Lean 4 proof over a model partly regenerated from the source on every run (statement-by-statement translator, equality with the hand-written model proved); Lean 4 proof (induction on the string, table obligation regenerated from source) + correspondence',
         ref='DESIGN.md §5 C03'),
     'C04': dict(
         text='Lean 4 theorems about the dtml-var pipeline model with the TaintedString mark as a Bool, for ALL '
